@@ -21,6 +21,11 @@ R = {
 ASSERT_ANCHORS = {"SplineTrajectory.hpp": ["            const int n = num_segments_;\n", "            num_segments_ = static_cast<int>(time_segments_.size());\n"],
                   "SplineOptimizer.hpp": ["            Workspace& ws_ref = (ws != nullptr) ? *ws : *getOrCreateInternalWorkspace();\n"]}
 R["T16"] = ("assert() statements added", [], HDRS)
+# T17: an equality chain on a constant written as a switch (lowered back to the if-chain by the extractor)
+R["T17"] = ("if (idx == 0) chains -> switch (idx)", [
+    (r"^(\s+)if \(idx == 0\)\n\s+\{\n(\s+[^\n]+;)\n\s+\}\n\s+else if \(idx == n\)\n\s+\{\n(\s+[^\n]+;)\n\s+\}\n\s+else\n\s+\{\n(\s+[^\n]+;)\n\s+\}\n",
+     r"\1switch (idx)\n\1{\n\1case 0:\n\2\n\1    break;\n\1default:\n\1    if (idx == n)\n\1    {\n\3\n\1    }\n\1    else\n\1    {\n\4\n\1    }\n\1}\n", re.M),
+    (r"^(\s+)if \(idx == 0\)\n\s+\{\n(\s+return [^\n]+;)\n\s+\}\n", r"\1switch (idx)\n\1{\n\1case 0:\n\2\n\1default:\n\1    break;\n\1}\n", re.M)], HDRS)
 
 CHECKS = [l.strip() for l in open(os.path.join(VERIF, "tools", "ready.txt")) if l.strip() and not l.startswith("#")]
 bad = 0
